@@ -129,3 +129,32 @@ func vpH_C04_T_loop() {
 	vpAssert("C04.loop-demotes", s.cb.demotes >= 1 && !s.e.IsLeader())
 	vpAssert("C04.loop-demotes:bound", vpImplies(s.cb.demotes >= 1, s.cb.demoteAt-t0 <= int64(3*tm.H+3*time.Second)))
 }
+
+// vpH_C04_T_validate_racing (thorough): the record is replaced by another owner at an explorer-chosen leg of
+// the validation read itself (before it is issued, between issue and application, after the response).
+func vpH_C04_T_validate_racing() {
+	s := vpLeadingInstance(vpTimings[0], 0, nil)
+	s.st.ttl = 0
+	s.kv.ackYield = true
+	replacedAt := int64(-1)
+	readAt := int64(-1)
+	go func() {
+		vpYield("env.replace")
+		s.st.write("env:other", "update", vpRecMk("other", "tok-other", 0), false, s.st.lastSeq)
+		replacedAt = int64(len(s.st.log))
+	}()
+	s.kv.afterApply = func(op string) {
+		if op == "get" && readAt < 0 {
+			readAt = int64(len(s.st.log))
+		}
+	}
+	ok, _ := s.e.ValidateToken(vpRootCtx())
+	vpQuiesce()
+	vpCover("C04.validate-racing")
+	if ok {
+		// a positive verdict means the read saw the instance's own record: the replacement came after the read
+		vpAssert("C04.true-only-if-own-live", replacedAt < 0 || readAt < replacedAt)
+	} else {
+		vpAssert("C04.false-otherwise", replacedAt >= 0 && replacedAt <= readAt)
+	}
+}
